@@ -166,6 +166,16 @@ def run_property(pid, spec: PropertySpec, tier, seed, t0):
         payload = {"property": pid, "obligation": o["name"], "function": o.get("function", o.get("label")), "verdict": o["verdict"],
                    "backend": o.get("backend", "z3"), "solver_model": o.get("model"), "label": o.get("label"),
                    "verifier_output": o.get("output"), "replay_cmd": f"./check {pid} --replay <this file>"}
+        if not nat:
+            try:
+                from checks.replayers import replay as _replay_model
+                rr = _replay_model(o)
+            except Exception:
+                rr = None
+            if rr is not None:
+                payload["counter_model_replay"] = rr
+                if rr.get("reproduced"):
+                    nat = [dict(rr, id="counter-model", obligation=o["name"], what="; ".join(rr.get("observed", []))[:400])]
         if nat:
             payload["native_input"] = nat[0]
             payload["confirmed_natively"] = True
